@@ -292,6 +292,23 @@ CLAIMS["C17"] = (
     "as equality with zero.",
     "DESIGN.md §2 C17")
 
+CLAIMS["C20"] = (
+    "table extraction with a naming rule, sibling agreement of dispatch tables, never-between "
+    "(await) path rules, who-may-write rules",
+    "Decides on the parsed source: every entry of the four extractor tables reads the message "
+    "field named like its metric (X_PHASE_n -> x_per_phase[n-1]) and the category dispatch of the "
+    "extractor lookup and of the validators agree; process_msg sends one Sample(message timestamp, "
+    "extractor(message)) to every sender of every pair and the pairs come from one request item; "
+    "no await lies between taking a message from the API receiver and creating its independent "
+    "fan-out task; API receivers are created only when absent and never removed, stream tasks are "
+    "only replaced by cancel-then-register; unknown ids change nothing, the duplicate scan "
+    "dominates the append with no await in between, the resampling actor's subscribe is "
+    "idempotent and get_or_create creates only when absent. Relative order of fan-out tasks of "
+    "consecutive messages and overflow behaviour are not decided.",
+    "Trusted: asyncio cancellation is delivered only at awaits; frequenz.channels Broadcast "
+    "delivers in send order.",
+    "DESIGN.md §2 C20")
+
 PENDING_REASON = ("no static check is registered for this property yet in this revision of the "
                   "machinery (planned rules are in DESIGN.md §2); nothing is claimed for it")
 
